@@ -114,7 +114,7 @@ def simplify(d):
 
 
 class C19Spec(v_okl.Spec):
-    quick, thorough = (5, 30), (200, 50)
+    quick, thorough = (5, 30), (300, 30)
     program = staticmethod(program)
     render = staticmethod(render)
     nontrivial = staticmethod(nontrivial)
